@@ -563,7 +563,7 @@ def origin(e, func, decls, depth=0):
                 elif init[0] in ("ctor", "make", "new"):
                     # constructed here; but a copy-construction from an existing object shares its buffer
                     args = init[2]
-                    if len(args) >= 1 and depth < 4 and init[0] == "ctor" and args[0][0] in ("var", "member", "mcall", "deref") and re.match(r"(const )?(Index(Of<.*>|8|U8|32|U32|64)|NumpyArray|ContentPtr|shared_ptr<.*>)\b", t) and not _is_lengthlike(args[0], func, decls):
+                    if len(args) >= 1 and depth < 4 and init[0] == "ctor" and args[0][0] in ("var", "member", "mcall", "deref") and re.match(r"(const )?(Index(Of<.*>|8|U8|32|U32|64)|NumpyArray|ContentPtr|shared_ptr<.*>)(?!\w)", t) and not _is_lengthlike(args[0], func, decls):
                         res = origin(args[0], func, decls, depth + 1)
                     else:
                         res = ("fresh", "constructed here: %s %s(...)" % (t, n))
@@ -602,10 +602,20 @@ def origin(e, func, decls, depth=0):
             return (ro[0], "%s.%s()" % (ro[1], e[1]))
         return ("unknown", e[1])
     if h in ("ctor", "make", "new"):
+        # a temporary built around an existing buffer (Index(ptr_, offset, length), NumpyArray(..., ptr_, ...)) shares that buffer
+        t = str(e[1])
+        if depth < 4 and re.match(r"(const )?(Index(Of<.*>|8|U8|32|U32|64)|NumpyArray|shared_ptr<.*>)(?!\w)", t):
+            for a in e[2]:
+                if a[0] in ("var", "member", "mcall", "deref") and not _is_lengthlike(a, func, decls):
+                    o = origin(a, func, decls, depth + 1)
+                    if o[0] in ("member", "param"):
+                        return o
         return ("fresh", "temporary")
     if h == "call":
         if e[1][0] == "fn" and e[1][1] in ("kernel::malloc",):
             return ("fresh", "kernel::malloc")
+        if e[1][0] == "fn" and re.search(r"GrowableBuffer(<.*>)?::(empty|full|arange)$", str(e[1][1])):
+            return ("fresh", "GrowableBuffer factory")
         return ("unknown", "call")
     if h == "const":
         return ("fresh", "constant")
@@ -633,7 +643,23 @@ def _is_lengthlike(e, func=None, decls=None):
         return False
     if e[0] == "member" and (e[2].endswith("length_") or e[2] in ("size_", "length_", "offset_", "itemsize_")):
         return True
+    if e[0] == "member" and e[1] == ("this",) and func is not None and FIELD_TYPES:
+        t = FIELD_TYPES.get((func.get("cls") or func["qual"].split("::")[0], e[2]))
+        if t is not None and SCALAR_T.match(t):
+            return True
     return False
+
+
+FIELD_TYPES = {}
+
+
+def load_field_types(fb):
+    """(class, field) -> declared type, so that scalar data members are recognised as lengths rather than storage"""
+    if not FIELD_TYPES:
+        for cn, c in fb.classes().items():
+            for fn, ft in c.get("fields") or ():
+                FIELD_TYPES[(cn, fn)] = ft
+    return FIELD_TYPES
 
 
 FRESH_RETURNERS = set()
@@ -649,7 +675,7 @@ def compute_fresh_returners(fb):
     (e.g. Reducer*::apply_<dtype>: kernel::malloc'ed output)"""
     byname = {}
     for f in fb.lib_funcs():
-        if "shared_ptr" in f["ret"] or "Ptr" in f["ret"] and "Content" not in f["ret"]:
+        if "shared_ptr" in f["ret"] or ("Ptr" in f["ret"] and "Content" not in f["ret"]) or re.search(r"\bIndex(Of|8|U8|32|U32|64)\b", f["ret"]):
             byname.setdefault(f["name"], []).append(f)
     good = set()
     for name, fs in byname.items():
@@ -673,21 +699,26 @@ def compute_fresh_returners(fb):
 
 def rule_fresh(rep, fb, files=None, floor=400, sites=None):
     global FRESH_RETURNERS
+    load_field_types(fb)
     FRESH_RETURNERS = set()
     for _ in range(4):   # fixpoint: a returner may return the result of another returner
         nxt = compute_fresh_returners(fb)
         if nxt == FRESH_RETURNERS:
             break
         FRESH_RETURNERS = nxt
-    r = rep.rule("FRESH.kernel-out", "every argument bound to a kernel parameter with dir: out designates storage created in the calling function (never a data member, a parameter or another object's buffer), outside the tabled in-place APIs", floor=floor)
+    r = rep.rule("FRESH.kernel-out", "every argument bound to a kernel parameter that is dir: out in the specification, or that the CPU kernel's body writes through (derived from the kernel source: many in-place kernels are annotated dir: in), "
+                 "designates storage created in the calling function (never a data member, a parameter or another object's buffer), outside the tabled in-place APIs", floor=floor)
     api = kernel_api(fb)
     dirs = spec_dirs(fb)
+    from . import kwrites
+    written = kwrites.kernel_api_writes(fb)
     table = load_table("fresh_exceptions.json")
     sites = sites if sites is not None else kernel_sites(fb, api, files)
     nout = 0
     for key, s in keyed(sites):
-        d = dirs.get(s.name)
-        if d is None:
+        d = dirs.get(s.name) or {}
+        wr = written.get(s.name, set())
+        if not d and not wr:
             continue
         a = api[s.name]
         names = a["overloads"][0][0]
@@ -696,7 +727,7 @@ def rule_fresh(rep, fb, files=None, floor=400, sites=None):
             continue
         decls = scoped_defs(s)
         for pn, ae in zip(names, args):
-            if pn not in d or d[pn][0] != "out" or "List[" not in d[pn][1]:
+            if not ((pn in d and d[pn][0] == "out" and "List[" in d[pn][1]) or pn in wr):
                 continue
             nout += 1
             o = origin(ae, s.func, decls)
